@@ -74,6 +74,12 @@ def cases(tier, seed):
         for mode in ("single", "multi"):
             for tail in hostile_tails(annot.styles()[st], mode):
                 yield {"k": "tail", "style": st, "mode": mode, "tail": tail}
+    for st in annot.styles():
+        for field in ("copyright", "contributor", "year"):
+            for ch in LINEBREAKS:
+                for pos in ("middle", "end"):
+                    for target in ("in-file", "dot-license"):
+                        yield {"k": "linebreak", "style": st, "field": field, "ch": ch, "pos": pos, "target": target}
     for a, b in itertools.product(MENU, repeat=2):
         for f in HIST_FILES:
             yield {"k": "pair", "a": a, "b": b, "file": f}
@@ -261,6 +267,37 @@ def ev_tail(c) -> R:
     return r
 
 
+# every character str.splitlines() takes for a line boundary (code points; the value is built at evaluation time)
+LINEBREAKS = [0x0A, 0x0D, 0x0B, 0x0C, 0x1C, 0x1D, 0x1E, 0x85, 0x2028, 0x2029]
+
+
+def ev_linebreak(c) -> R:
+    """A value that holds a line-boundary character: a header line is one line, so either the tool refuses the value and leaves the file alone, or
+    what it wrote is found again by the next identical run (and the run after)."""
+    r = R()
+    root = fresh_dir("c10")
+    fname = "file.unknownext"
+    materialise(root, {fname: "content line\nsecond\n"})
+    before = read_tree(root)
+    ch = chr(c["ch"])
+    value = "Joe" + ch + "Bloggs" if c["pos"] == "middle" else "Joe Bloggs" + ch
+    if c["field"] == "year":
+        value = "2019" + ch + "2020" if c["pos"] == "middle" else "2020" + ch
+        argv = ["--license", "MIT", "--year", value, "--style", c["style"], "--copyright", "Jane Doe"]
+    else:
+        argv = ["--license", "MIT", "--year", "2020", "--style", c["style"]]
+        argv += ["--copyright", value] if c["field"] == "copyright" else ["--copyright", "Jane Doe", "--contributor", value]
+    if c["target"] == "dot-license":
+        argv.append("--force-dot-license")
+    sig = f"linebreak|{c['field']}|U+{c['ch']:04X}|{c['pos']}"
+    res = twice(r, root, argv, [root / fname], f"--style {c['style']} {c['target']} {c['field']} {value!r}", sig, n=3)
+    if res is not None and res.exit_code != 0 and read_tree(root) != before:
+        r.violation(f"refused-but-written|{sig}", f"annotate {argv} exits {res.exit_code} but changed the tree")
+    r.outcome = "n/a" if res is None else f"linebreak-exit{res.exit_code}"
+    r.tags.append("linebreak")
+    return r
+
+
 def ev_only(c) -> R:
     """Only one kind of information requested (e.g. a bare '(c)'-style notice and nothing else)."""
     r = R()
@@ -316,7 +353,7 @@ def ev_repeat(c) -> R:
     return r
 
 
-_EV = {"type": ev_type, "style": ev_style, "pair": ev_pair, "repeat": ev_repeat, "tail": ev_tail, "only": ev_only}
+_EV = {"type": ev_type, "style": ev_style, "pair": ev_pair, "repeat": ev_repeat, "tail": ev_tail, "only": ev_only, "linebreak": ev_linebreak}
 
 
 def evaluate(c) -> R:
